@@ -249,8 +249,9 @@ class MultiCtl(BaseMultiCtl, Module):
                 "Only one MultiCtl mapping per destination module allowed"
             )
         gain = list(gains).pop() if gains and len(gains) == 1 else 256
+        kwargs = {} if name is None else {"name": name}
         bundle = project.new_module(
-            MultiCtl, name=name, layer=layer, x=x, y=y, gain=gain, mappings=mappings
+            MultiCtl, layer=layer, x=x, y=y, gain=gain, mappings=mappings, **kwargs
         )
         bundle >> mods
         if initial is not None:
